@@ -16,8 +16,8 @@ base=$(python3 /verif/tools/baseline.py "$S/with" | head -1)
 echo "$sid: $base"
 case "$base" in *" 0 missing"*) ;; *) echo "$sid: baseline tests do not pass with the change"; exit 1;; esac
 for d in with without; do
-  mkdir -p "$S/$d/_mutants/x"; cp -r "$src"/. "$S/$d/_mutants/x/"
-  (cd "$S/$d" && timeout 300 sh _mutants/x/demo.sh > "$S/$d.out" 2>&1)
+  n=$(basename "$src"); mkdir -p "$S/$d/_mutants/$n"; cp -r "$src"/. "$S/$d/_mutants/$n/"
+  (cd "$S/$d" && timeout 300 sh _mutants/$(basename "$src")/demo.sh > "$S/$d.out" 2>&1)
   sed -i "s#$S/$d#<tree>#g" "$S/$d.out"
 done
 if cmp -s "$S/with.out" "$S/without.out"; then echo "$sid: demonstration does not distinguish the change"; exit 1; fi
